@@ -144,6 +144,10 @@ fn gen_impl_delegation_trait_defs(
 
     let mut trait_copy = out_trait.clone();
     trait_copy.ident = impl_trait_ident.clone();
+    for trait_fn in trait_copy.fns.iter_mut() {
+        // the delegation target trait only declares the methods
+        trait_fn.default_body = None;
+    }
 
     let no_mock_opts = Opts {
         mock_api: None,
